@@ -5,6 +5,7 @@ package stats
 
 import (
 	"encoding/json"
+	"fmt"
 	"hash/fnv"
 	"os"
 	"sort"
@@ -124,6 +125,10 @@ func (c *Collector) Write() {
 	path := os.Getenv("VERIF_STATS_OUT")
 	if path == "" {
 		return
+	}
+	if os.Getenv("VERIF_STATS_PERPID") != "" {
+		// native fuzzing: every worker process writes its own collector
+		path = fmt.Sprintf("%s.%d", path, os.Getpid())
 	}
 	c.mu.Lock()
 	defer c.mu.Unlock()
